@@ -22,22 +22,23 @@ MCLAURIN = (f"{LOGX} + ({L} * {powc(LOGX, '2.0')}) / 2.0 + ({powc(L, '2.0')} * {
 SERIES_WINDOW = f"({L} < 1.0e-5 and {L} > -1.0e-5)"
 
 
-def boxcox_value(xpowl):
-    return f"ite({X} == 0, 0.0, ite({SERIES_WINDOW}, {MCLAURIN}, ({xpowl} - 1.0) / {L}))"
-
-
 _ELLV = "typed(ell, 'Numeric').value"
+_OUTSIDE = f"({X} != 0 and not {SERIES_WINDOW})"
 contract('biogeme.models.boxcox.boxcox', P, nla_uf=True,
          types={'x': 'Expression', 'ell': 'Expression'},
          modifies=[],
          ensures={
+             'zero_argument': f"implies({X} == 0, c05c_val(result) == 0.0)",
+             # |ell| < 1e-5 (coded: ell < 1e-5 and ell > -1e-5): McLaurin series, continuous in ell through zero
+             'series_inside_window': f"implies({X} != 0 and {SERIES_WINDOW}, c05c_val(result) == {MCLAURIN})",
              # parameter given as an expression (Beta, ...): x ** ell is a Power node
-             'closed_form_or_series': f"implies(not isinstance(ell, Numeric), c05c_val(result) == {boxcox_value(X + ' ** ' + L)})",
-             # parameter given as a Numeric constant: x ** ell is a PowerConstant node (0 at x == 0; negative base needs an integer exponent)
-             'closed_form_or_series_numeric_parameter':
-                 # (first conjunct: the value of the Numeric node is its constant - instantiates the dispatch link)
-                 f"implies(isinstance(ell, Numeric) and ({X} >= 0 or is_int({L})), "
-                 f"c05c_val(typed(ell, 'Numeric')) == {_ELLV} and c05c_val(result) == {boxcox_value(powc(X, L))})"},
+             'closed_form_outside_window': f"implies(not isinstance(ell, Numeric) and {_OUTSIDE}, "
+                                           f"c05c_val(result) == ({X} ** {L} - 1.0) / {L})",
+             # parameter given as a Numeric constant: x ** ell is a PowerConstant node (negative base needs an integer exponent);
+             # first conjunct: the value of the Numeric node is its constant (instantiates the dispatch link)
+             'closed_form_outside_window_numeric_parameter':
+                 f"implies(isinstance(ell, Numeric) and ({X} >= 0 or is_int({L})) and {_OUTSIDE}, "
+                 f"c05c_val(typed(ell, 'Numeric')) == {_ELLV} and c05c_val(result) == ({powc(X, L)} - 1.0) / {L})"},
          replay=_replay_code('c17_boxcox.py', 'boxcox:closed-form'),
          note='arguments restricted to Expression objects (plain numbers: bounded stand-in)')
 
@@ -77,12 +78,15 @@ contract(D + 'uniformpdf', P, modifies=[],
          ensures={'textbook_density': f"implies({_NA} < {_NB}, c05c_val(result) == ite({_NX} >= {_NA} and {_NX} <= {_NB}, 1 / ({_NB} - {_NA}), 0.0))"},
          replay=_replay_code('c17_distributions.py', 'uniformpdf:matches-textbook'))
 
-_TRI = (f"ite({_NX} < {_NA}, 0.0, ite({_NX} < {_NC}, 2.0 * (({_NX} - {_NA}) / (({_NB} - {_NA}) * ({_NC} - {_NA}))), "
-        f"ite({_NX} == {_NC}, 2.0 / ({_NB} - {_NA}), ite({_NX} <= {_NB}, 2.0 * ({_NB} - {_NX}) / (({_NB} - {_NA}) * ({_NB} - {_NC})), 0.0))))")
+_BA, _CA, _BC = f"({_NB} - {_NA})", f"({_NC} - {_NA})", f"({_NB} - {_NC})"
 contract(D + 'triangularpdf', P, modifies=[],
          raises={'TypeError': bad('x', 'a', 'b', 'c'),
                  'ValueError': f"not ({bad('x', 'a', 'b', 'c')}) and ({_NC} <= {_NA} or {_NC} >= {_NB})"},
-         ensures={'textbook_density': f"c05c_val(result) == {_TRI}"},
+         ensures={'zero_below_a': f"implies({_NX} < {_NA}, c05c_val(result) == 0.0)",
+                  'rising_edge': f"implies({_NX} >= {_NA} and {_NX} < {_NC}, c05c_val(result) == 2.0 * (({_NX} - {_NA}) / ({_BA} * {_CA})))",
+                  'mode': f"implies({_NX} == {_NC}, c05c_val(result) == 2.0 / {_BA})",
+                  'falling_edge': f"implies({_NX} > {_NC} and {_NX} <= {_NB}, c05c_val(result) == 2.0 * ({_NB} - {_NX}) / ({_BA} * {_BC}))",
+                  'zero_above_b': f"implies({_NX} > {_NB}, c05c_val(result) == 0.0)"},
          replay=_replay_code('c17_distributions.py', 'triangularpdf:matches-textbook'))
 
 contract(D + 'logisticcdf', P, modifies=[],
